@@ -41,8 +41,32 @@ def parse_case(line):
 
 
 def run_driver(ctx, in_path, tag, jobs=None, timeout=3000, case_timeout=None):
+    """Runs the driver on the cases of in_path.  The cases are dealt round-robin to the worker shards (the
+    supervisor gives every worker a contiguous block, and TLC exports neighbouring - similar - vectors together,
+    so the few vectors that kill a worker would otherwise all land in one shard and be re-run one after the other)."""
     out = os.path.join(ctx.tmp, "res-%s.ndjson" % tag)
-    argv = [driver(ctx), "-in", in_path, "-out", out, "-j", str(jobs or min(14, common.NCPU))]
+    nj = jobs or min(14, common.NCPU)
+    lines = read_lines(in_path)
+    n = len(lines)
+    per = (n + nj - 1) // nj if n else 1
+    order = sorted(range(n), key=lambda i: (i % nj, i // nj)) if n > nj else list(range(n))
+    dealt = in_path + ".dealt"
+    with open(dealt, "w") as f:
+        for i in order:
+            f.write(lines[i] + "\n")
+    res_dealt = _run_driver_raw(ctx, dealt, out, nj, timeout, case_timeout)
+    os.remove(dealt)
+    if len(res_dealt) != n:
+        raise common.Infra("driver returned %d results for %d cases" % (len(res_dealt), n))
+    res = [None] * n
+    for pos, i in enumerate(order):
+        res_dealt[pos]["n"] = i
+        res[i] = res_dealt[pos]
+    return res
+
+
+def _run_driver_raw(ctx, in_path, out, jobs, timeout, case_timeout):
+    argv = [driver(ctx), "-in", in_path, "-out", out, "-j", str(jobs)]
     if case_timeout:
         argv += ["-case-timeout", case_timeout]
     ctx.run(argv, timeout=timeout)
